@@ -74,18 +74,46 @@ def unphase_cli(ctx, path):
     return rc, out, exc_name(rc, err), err
 
 
+STDIN_CODE = "import sys; from whatshap.__main__ import main; main(['unphase', '-'])"
+
+
+def unphase_channel(ctx, p_in, text, channel):
+    """run `whatshap unphase` on the input given as a plain file, on standard input ('-'), bgzipped or as BCF"""
+    if channel == "stdin":
+        rc, out, err = util.run_py(ctx, STDIN_CODE, stdin=text, timeout=120)
+        return rc, out, exc_name(rc, err), err
+    if channel in ("gz", "bcf"):
+        import pysam
+        try:
+            if channel == "gz":
+                dst = p_in + ".gz"
+                pysam.tabix_compress(p_in, dst, force=True)
+            else:
+                dst = p_in[:-4] + ".bcf"
+                with pysam.VariantFile(p_in) as src, pysam.VariantFile(dst, "wb", header=src.header) as out:
+                    for r in src:
+                        out.write(r)
+        except Exception as e:       # the harness' own conversion failed: fall back to the plain file
+            return unphase_cli(ctx, p_in) + (f"conversion failed: {type(e).__name__}",)
+        return unphase_cli(ctx, dst)
+    return unphase_cli(ctx, p_in)
+
+
 def run_spec(ctx, wd, tag, spec, perturb=None):
     text = uv.write_text(spec)
     p_in = os.path.join(wd, f"{tag}.in.vcf")
     with open(p_in, "w") as f:
         f.write(text)
-    rc1, out1, exc1, err1 = unphase_cli(ctx, p_in)
+    r = unphase_channel(ctx, p_in, text, spec.get("channel", "file"))
+    rc1, out1, exc1, err1 = r[:4]
+    channel = spec.get("channel", "file") if len(r) == 4 else "file-after-failed-conversion"
     if perturb:
         out1 = perturb(out1)
     p1 = os.path.join(wd, f"{tag}.out1.vcf")
     with open(p1, "w") as f:
         f.write(out1)
-    res = {"spec": spec, "text": text, "p_in": p_in, "p1": p1, "out1": out1, "exc1": exc1, "rc1": rc1, "err1": err1[-2500:]}
+    res = {"spec": spec, "text": text, "p_in": p_in, "p1": p1, "out1": out1, "exc1": exc1, "rc1": rc1, "err1": err1[-2500:],
+           "channel": channel}
     if out1.strip():
         rc2, out2, exc2, err2 = unphase_cli(ctx, p1)
         p2 = os.path.join(wd, f"{tag}.out2.vcf")
@@ -95,6 +123,89 @@ def run_spec(ctx, wd, tag, spec, perturb=None):
     else:
         res.update(p2=None, out2="", exc2="no-output", rc2=-1)
     return res
+
+
+def tally_spec(ctx, label, spec, res):
+    """input-distribution counters (coverage.input_distribution of the evidence)"""
+    t = ctx.tally
+    t(f"{label}.files")
+    t(f"{label}.records", len(spec["records"]))
+    t(f"{label}.profile.{spec.get('profile')}")
+    t(f"{label}.samples.{len(spec['samples'])}")
+    t(f"{label}.exit.{res['exc1'] or 'ok'}")
+    t(f"channel.{res['channel']}")
+    t(f"records_per_file.{min(len(spec['records']), 9)}")
+    t(f"contigs.{len(spec['contigs'])}")
+    t(f"record_order.{spec.get('order', 'sorted')}")
+    if spec.get("no_final_newline") and spec["records"]:
+        t("file.no_final_newline")
+    for x in spec.get("info_tags") or []:
+        t(f"header.INFO_named_{x}")
+    for l in spec.get("generic_meta") or []:
+        t("header.generic." + l[2:].split("=")[0])
+    for fid, num, typ in spec["formats"]:
+        if fid in uv.PHASE_KEYS:
+            t(f"header.{fid}.Type={typ}")
+    used = {k for r in spec["records"] for k in r["format"]}
+    for fid in uv.PHASE_KEYS:
+        if fid in {f[0] for f in spec["formats"]} and fid not in used:
+            t(f"header.{fid}.declared_unused")
+    if spec["samples"] and spec["samples"][0] != "S1":
+        t("sample_names.not_S_i")
+    for r in spec["records"]:
+        fmt = r["format"]
+        tags = [k for k in fmt if k in uv.PHASE_KEYS]
+        if r["fixed"][1] == 1:
+            t("records.pos_1")
+        nalt = 0 if r["fixed"][4] == "." else len(r["fixed"][4].split(","))
+        t(f"records.nalt.{'10+' if nalt >= 10 else nalt}")
+        if "<" in r["fixed"][4] or "*" in r["fixed"][4]:
+            t("records.symbolic_alt")
+        if spec["samples"] and "GT" not in fmt:
+            t("records.without_GT")
+            if tags:
+                t("records.tag_without_GT")
+            if not fmt:
+                t("records.FORMAT_dot")
+        for k in fmt:
+            if k in ("PSX", "HPQ", "GTX"):
+                t(f"records.key_sharing_prefix.{k}")
+        gts = [c[0] for c in r["calls"]] if "GT" in fmt else []
+        if gts:
+            anyp = any("|" in g for g in gts)
+            allp = all("|" in g and "/" not in g for g in gts)
+            kind = "all_phased" if allp else ("some_phased" if anyp else "none_phased")
+            t(f"records.gt.{kind}")
+            for k in tags:
+                t(f"records.{k}.with_gt_{kind}")
+            if not tags:
+                t(f"records.no_tag.with_gt_{kind}")
+            if len({len(re.split(r'[/|]', g)) for g in gts}) > 1:
+                t("records.mixed_ploidy")
+        for call in r["calls"]:
+            if len(call) < len(fmt):
+                t("calls.dropped_trailing_fields")
+            for k, v in zip(fmt, call):
+                if k in uv.PHASE_KEYS:
+                    t(f"calls.{k}.{'missing' if v == '.' else 'value'}")
+            if "GT" in fmt:
+                gt = call[0]
+                al = re.split(r"[/|]", gt)
+                t(f"calls.ploidy.{len(al) if len(al) <= 6 else '7+'}")
+                if "." in al:
+                    t("calls.missing_all" if all(a == "." for a in al) else "calls.missing_partial")
+                else:
+                    ints = [int(a) for a in al]
+                    if len(ints) > 1:
+                        t("calls.called.ascending" if ints == sorted(ints) else "calls.called.not_ascending")
+                        if "|" not in gt and ints != sorted(ints):
+                            t("calls.unphased_not_ascending")
+                    if any(a >= 10 for a in ints):
+                        t("calls.allele_number_10+")
+                        if sorted(ints) != sorted(ints, key=str):
+                            t("calls.numeric_order_differs_from_text_order")
+                if "|" in gt:
+                    t("calls.phased_mixed" if "/" in gt else "calls.phased")
 
 
 def has_phase_info(spec):
@@ -227,23 +338,7 @@ def check_specs(st, specs, label, perturb=None, depth=0):
             st.min_cache[res["text"]] = res["exc1"] is not None
         nontriv = has_phase_info(spec)
         ctx.count(("unphase", res["text"]), nontrivial=nontriv)
-        ctx.tally(f"{label}.files")
-        ctx.tally(f"{label}.records", len(spec["records"]))
-        ctx.tally(f"{label}.profile.{spec.get('profile')}")
-        ctx.tally(f"{label}.samples.{len(spec['samples'])}")
-        ctx.tally(f"{label}.exit.{res['exc1'] or 'ok'}")
-        for r in spec["records"]:
-            if spec["samples"] and "GT" not in r["format"]:
-                ctx.tally("records.without_GT")
-            for call in r["calls"]:
-                if "GT" in r["format"]:
-                    gt = call[0]
-                    al = re.split(r"[/|]", gt)
-                    ctx.tally(f"calls.ploidy.{len(al)}")
-                    if "." in al:
-                        ctx.tally("calls.missing_all" if all(a == "." for a in al) else "calls.missing_partial")
-                    if "|" in gt:
-                        ctx.tally("calls.phased_mixed" if "/" in gt else "calls.phased")
+        tally_spec(ctx, label, spec, res)
         if res["exc1"] is not None and res["exc1"] not in KNOWN_EXC:
             # an exception class the model does not know: never silently accepted
             nfail += 1
@@ -254,16 +349,24 @@ def check_specs(st, specs, label, perturb=None, depth=0):
             ctx.l2_disagreement("Unphase.unphase_file cur_rule = CLI (exception class unknown to the model)",
                                 [{"spec": spec, "exception": res["exc1"]}])
             continue
-        hin, rin = uv.parse_vcf(res["p_in"], res["text"], st.interner)
-        if res["out1"].strip():
-            hout, rout = uv.parse_vcf(res["p1"], res["out1"], st.interner)
-        else:
-            hout, rout = [], []
-        if res["p2"] and res["out2"].strip() and (res["exc2"] is None or res["exc2"] in KNOWN_EXC):
-            hout2, rout2 = uv.parse_vcf(res["p2"], res["out2"], st.interner)
-            e2 = res["exc2"]
-        else:
-            hout2, rout2, e2 = [], [], "IndexError"      # no second output: l1_idem must fail
+        hin, rin = uv.parse_vcf(res["p_in"], res["text"], st.interner)     # a failure here is a generator bug
+        try:
+            # what the implementation wrote must be readable: a failure here is a finding, not a harness error
+            if res["out1"].strip():
+                hout, rout = uv.parse_vcf(res["p1"], res["out1"], st.interner)
+            else:
+                hout, rout = [], []
+            if res["p2"] and res["out2"].strip() and (res["exc2"] is None or res["exc2"] in KNOWN_EXC):
+                hout2, rout2 = uv.parse_vcf(res["p2"], res["out2"], st.interner)
+                e2 = res["exc2"]
+            else:
+                hout2, rout2, e2 = [], [], "IndexError"      # no second output: l1_idem must fail
+        except Exception as e:
+            nfail += 1
+            report(st, f"unphase:output-unreadable:{type(e).__name__}",
+                   f"the output of `whatshap unphase` cannot be read back ({type(e).__name__}: {str(e)[:300]}); input:\n"
+                   f"{res['text']}\noutput:\n{res['out1'][-1500:]}", spec)
+            continue
         term = (f"(({uv.header_term(hin)}, {uv.recs_term(rin)}, ({uv.header_term(hout)}, {uv.fres_term(rout, res['exc1'])}), "
                 f"({uv.header_term(hout2)}, {uv.fres_term(rout2, e2)})) : ucase)")
         ctx.tally(f"header.phasing_lines.{sum(1 for k, _, _ in hin if k == 0)}")
